@@ -71,3 +71,75 @@ GROUPS.append(Group('W2', 'ljust / rjust / center / zfill: text as format() pads
                     ['AnsiString.ljust', 'AnsiString.rjust', 'AnsiString.center', 'AnsiString.zfill',
                      'AnsiString._shift_settings_idx'], w2_items, w2_task,
                     bounds='change points N<=2(3)/3, objects<=2; width, fill character, extend flag, keys, text length symbolic'))
+
+
+# ============================================================================================= W3: format specs
+CL_W3 = [Clause('equals-padding-and-apply_formatting-on-a-copy', 'post_format_spec')]
+RAISES_W3 = {'ValueError': 'raises_format_spec'}
+SPEC_ALPHABET = (32, 120, 58, 43, 45, 60, 62, 94, 50, 55)   # space x : + - < > ^ 2 7
+
+
+def w3_items(tier):
+    out = []
+    L = 3 if tier == 'quick' else 4
+    table = [([0], []), ([], [0])]
+    for n in range(1, L + 1):
+        for ansi in ('none', 'empty', 'code'):
+            if tier == 'quick' and n == L and ansi == 'empty':
+                continue
+            out.append([n, ansi, [], None])
+            # with a formatted receiver the work is split by the first character (more, smaller work items)
+            if n >= 2:
+                for first in SPEC_ALPHABET:
+                    out.append([n, ansi, table, first])
+            else:
+                out.append([n, ansi, table, None])
+    out.append([0, 'code', table, None])
+    out.append([0, 'name', [], None])
+    # the full form fill, sign, align, width (four characters, each position restricted to its own class)
+    for ansi in ('none', 'code'):
+        out.append(['fsaw', ansi, [], None])
+        for al in (60, 62, 94):
+            out.append(['fsaw', ansi, table, al])
+    return out
+
+
+def w3_task(envr, item):
+    n, ansi, shape, fixed = item
+
+    def body(c):
+        from contracts_helpers import render_setting_code
+        sett = {0: render_setting_code(c, 's0')} if shape else {}
+        s, info = shapes.build_ansistring(c, shape, 'a', settings=sett)
+        info['text'].escfree = True
+        cps = []
+        if n == 'fsaw':
+            for i, alpha in enumerate((SPEC_ALPHABET, (43, 45), (60, 62, 94), (50, 55))):
+                if i == 2 and fixed is not None:
+                    cps.append(fixed)
+                    continue
+                cp = c.named_int('f%d' % i)
+                c.assume(b_or(*[i_cmp('==', cp, a) for a in alpha]))
+                cps.append(cp)
+        for i in range(n if isinstance(n, int) else 0):
+            if i == 0 and fixed is not None:
+                cps.append(fixed)
+                continue
+            cp = c.named_int('f%d' % i)
+            c.assume(b_or(*[i_cmp('==', cp, a) for a in SPEC_ALPHABET]))
+            cps.append(cp)
+        suffix = {'none': '', 'empty': ':', 'code': ':4', 'name': ':bold'}[ansi]
+        spec = sym.s_concat(sym.s_from_chars(cps), suffix)
+        if isinstance(spec, str) and spec == '':
+            raise sym.Infeasible()
+        run_contract(envr, c, 'AnsiString.to_str', s, [spec, True, False, True], {}, CL_W3, raises=RAISES_W3, frame=('self',))
+    return ContractRun(body, CL_W3, raises=RAISES_W3, frame=('self',), use=('K1', 'SL'))
+
+
+GROUPS.append(Group('W3', 'to_str(format_spec): [fill][+|-][<|>|^][width][:ansi] equals padding and apply_formatting on a copy; '
+                    'ValueError outside the grammar; receiver untouched', ['C12'], 'B',
+                    ['AnsiString.to_str', 'AnsiString._apply_string_format', 'AnsiString.__format__', 'AnsiString.ljust',
+                     'AnsiString.rjust', 'AnsiString.center', 'AnsiString.apply_formatting'], w3_items, w3_task,
+                    bounds='string-format part of length <=3/4 over the characters space x : + - < > ^ 2 7 (symbolic), followed by '
+                    'nothing, ":", ":4" or ":bold"; receiver unformatted or with one setting over symbolic range',
+                    assumes=['W2', 'F3', 'SL', 'K1']))
